@@ -284,9 +284,8 @@ impl VerifBox for PeerIdBox {
                 let bytes = unhex(data);
                 let from_vec = PeerId::try_from(bytes.clone());
                 let from_bytes = PeerId::from_bytes(&bytes);
-                let via_multihash = multihash::Multihash::<64>::from_bytes(&bytes)
-                    .ok()
-                    .map(|mh| (PeerId::try_from(mh), PeerId::from_multihash(mh)));
+                let parsed = multihash::Multihash::<64>::from_bytes(&bytes).ok();
+                let via_multihash = parsed.map(|mh| (PeerId::try_from(mh), PeerId::from_multihash(mh)));
                 match (from_vec, from_bytes) {
                     (Ok(a), Ok(b)) if a == b => {
                         let mh: multihash::Multihash<64> = a.into();
@@ -295,7 +294,7 @@ impl VerifBox for PeerIdBox {
                             Some((Ok(x), Ok(y))) => x == a && y == a,
                             _ => false,
                         };
-                        if mh.to_bytes() == bytes && v == bytes && same {
+                        if mh.to_bytes() == a.to_bytes() && v == a.to_bytes() && same {
                             format!("ok {}", hex(&a.to_bytes()))
                         } else {
                             "err inconsistent".to_string()
@@ -305,7 +304,7 @@ impl VerifBox for PeerIdBox {
                         // the multihash routes must refuse as well (and hand the value back)
                         match via_multihash {
                             None => "err multihash".to_string(),
-                            Some((Err(x), Err(y))) if x.to_bytes() == bytes && y.to_bytes() == bytes =>
+                            Some((Err(x), Err(y))) if Some(x) == parsed && Some(y) == parsed =>
                                 "err multihash".to_string(),
                             _ => "err inconsistent".to_string(),
                         }
